@@ -154,7 +154,11 @@ def run_harness(crate, harness, timeout_s, mem_gb, outdir, playback=False, slot=
     elif str(r.get("status")).lower() == "success":
         res["status"] = "ok"
     else:
-        res["status"] = "failed"
+        # Kani says FAILED but no individual check failed: unsupported construct reached, CBMC
+        # error or out of memory -- a machinery problem, never a verdict
+        res["status"] = "error"
+        m = re.search(r"(Failed Checks:[^\n]*|unsupported[^\n]*|CBMC failed[^\n]*|error:[^\n]*)", out)
+        res["why"] = m.group(1)[:200] if m else "verification did not succeed but no check failed"
     return res
 
 
